@@ -4,7 +4,7 @@
 From Coq Require Import List Bool NArith.
 Import ListNotations.
 Require Adj AdjGen TableAdj GenProofs_RevMeas.
-Require Pauli Sem Refine Run FrameRun RevTrack.
+Require Pauli Sem Refine Run FrameRun RevTrack FrameProg RevProg.
 Require Import Stab Spec SpecProofs GF2.
 
 (* for EVERY assignment, a detector's value is the XOR of the values of the measurement results it names *)
@@ -41,3 +41,15 @@ Theorem C18_injected_pauli_flips_exactly_the_anticommuting_detectors :
   RevTrack.fparz E zs l d = Sem.acom E (RevTrack.revtrack n l d).
 Proof. exact RevTrack.error_flips_iff_anticommutes. Qed.
 Print Assumptions C18_injected_pauli_flips_exactly_the_anticommuting_detectors.
+
+(* ... and with feedback, resets and several faults: the value of a checked detector in every legal shot is the reference value
+   xor the parity of the injected (externally controlled) Paulis that anticommute with its sensitivity at their position. *)
+Theorem C18_injected_faults_flip_exactly_the_anticommuting_detectors :
+  forall (n : nat) (extr exta : nat -> bool) (prog : list FrameProg.pop) (l la : list (Run.op * option bool))
+         (s s' : (Pauli.pauli -> Pauli.pauli) * (Pauli.pauli -> Pauli.pauli)) (Sg S' : Sem.state) (d : list bool),
+  Forall (FrameProg.okp n) prog -> Run.good n (fst s) (snd s) -> Run.Inv n (fst s) Sg ->
+  FrameProg.realize extr [] prog l -> Run.sim_run n s l s' -> FrameProg.realize exta [] prog la -> Run.sem_run Sg la S' ->
+  RevProg.gauge_okp n prog d -> (forall g, Refine.wf n g -> Sg g -> Sem.acom g (fst (RevProg.bt n prog d)) = false) ->
+  RevTrack.par_rec la d = xorb (RevTrack.par_rec l d) (RevProg.ext_par n extr exta prog d).
+Proof. exact RevProg.detector_in_every_shot. Qed.
+Print Assumptions C18_injected_faults_flip_exactly_the_anticommuting_detectors.
